@@ -80,6 +80,21 @@ SAFE_PATTERNS = [
     re.compile(r"core::num::<impl [iu](8|16|32|64|128|size)>::(saturating|checked|overflowing)_(add|sub|mul|neg)"),
     re.compile(r"core::num::<impl [iu](8|16|32|64|128|size)>::(count_ones|count_zeros|leading_zeros|trailing_zeros|min|max)"),
     re.compile(r"core::num::<impl [iu](8|16|32|64|128|size)>::(from|to)_(be|le|ne)_bytes"),
+    # total functions of core: they return for every argument (closure arguments are crate functions and are inventoried on
+    # their own; iterator adaptors over finite iterators terminate)
+    re.compile(r"core::slice::<impl \[T\]>::(fill|first|last|first_mut|last_mut|get|get_mut|is_empty|contains|starts_with|ends_with|split_first|split_last|reverse|iter|iter_mut)"),
+    re.compile(r"core::option::Option::<T>::(ok_or|ok_or_else|map|map_or|map_or_else|and_then|or|or_else|unwrap_or|unwrap_or_else|unwrap_or_default|filter|copied|cloned|as_ref|as_mut|take|is_some_and|is_none_or|xor|zip|iter)"),
+    re.compile(r"core::result::Result::<T, E>::(map|map_err|and_then|or_else|unwrap_or|unwrap_or_else|unwrap_or_default|ok|err|as_ref|as_mut|is_ok_and|is_err_and|iter)"),
+    re.compile(r"core::ops::(Range|RangeInclusive|RangeFrom|RangeTo|RangeToInclusive)::<Idx>::(contains|is_empty|start|end)"),
+    re.compile(r"core::cmp::(min|max|Ord::min|Ord::max|PartialOrd::(lt|le|gt|ge)|PartialEq::(eq|ne))"),
+    re.compile(r"core::cmp::impls::<impl core::cmp::(Ord|PartialOrd|PartialEq) for ([iu](8|16|32|64|128|size)|char|bool)>::(cmp|partial_cmp|eq|ne|lt|le|gt|ge|min|max)"),
+    re.compile(r"core::iter::Iterator::(position|any|all|find|find_map|filter_map|rev|zip|chain|copied|cloned|last|nth|peekable|take_while|skip_while|map_while|inspect|fuse|flatten|flat_map|for_each|fold|max|min|max_by_key|min_by_key|max_by|min_by|by_ref)"),
+    re.compile(r"<core::slice::Iter<('a, )?T> as core::iter::(Iterator|DoubleEndedIterator|ExactSizeIterator)>::(position|rposition|any|all|find|find_map|count|last|nth|len|next_back|for_each|fold)"),
+    re.compile(r"<core::slice::IterMut<('a, )?T> as core::iter::(Iterator|DoubleEndedIterator|ExactSizeIterator)>::(position|any|all|find|count|last|nth|len|next_back|for_each|fold)"),
+    re.compile(r"core::mem::(swap|replace|take)"),
+    re.compile(r"core::bool::<impl bool>::(then|then_some)"),
+    re.compile(r"core::char::methods::<impl char>::(is_ascii\w*|to_ascii_\w+|is_alphabetic|is_numeric|is_alphanumeric|is_whitespace|is_control|len_utf16|from_u32)"),
+    re.compile(r"core::num::<impl u8>::(is_ascii\w*|to_ascii_\w+)"),
     re.compile(r"core::num::<impl [iu](8|16|32|64|128|size)>::(swap_bytes|reverse_bits|rotate_left|rotate_right|to_be|to_le|from_be|from_le|abs_diff|unsigned_abs|signum|is_positive|is_negative|is_power_of_two)"),
     # lossless integer conversions (From exists only where no value is lost)
     re.compile(r"core::convert::num::<impl core::convert::From<([iu](8|16|32|64|128)|bool)> for [iu](8|16|32|64|128|size)>::from"),
